@@ -30,7 +30,8 @@ DECIDING = ['bp.util:BundleContainer.create_report', 'bp.agent:Agent._finish_bun
 REQUIRED_OBS = ['combinations', 'reports_expected', 'reports_checked', 'no_report_expected', 'forwards_sent_as_fragments']
 
 NODE = 'dtn://me/'
-OUTCOMES = ['deliver', 'deliver-admin', 'forward', 'forward-frag', 'delete', 'no-route', 'security', 'duplicate', 'forward-fail', 'forward-frag-fail', 'security-bcb']
+OUTCOMES = ['deliver', 'deliver-admin', 'forward', 'forward-frag', 'delete', 'no-route', 'security', 'duplicate', 'forward-fail', 'forward-frag-fail', 'security-bcb',
+            'forward-cl-missing', 'forward-cl-raises']
 REQ_BITS = [('received', bpv7.FLAG_REQ_RECEPTION), ('forwarded', bpv7.FLAG_REQ_FORWARDING),
             ('delivered', bpv7.FLAG_REQ_DELIVERY), ('deleted', bpv7.FLAG_REQ_DELETION)]
 OCCURRED = {
@@ -45,10 +46,14 @@ OCCURRED = {
     'forward-fail': {'received', 'deleted'},   # routed for forwarding, but no transmit route: nothing was forwarded
     'forward-frag-fail': {'received', 'deleted'},   # the route's MTU cannot even hold the blocks without payload: nothing leaves
     'duplicate': set(),
+    # a transmit route exists, but the convergence layer it names is not attached / its sender fails: nothing was forwarded
+    'forward-cl-missing': {'received', 'deleted'},
+    'forward-cl-raises': {'received', 'deleted'},
 }
 DEST = {
     'deliver': 'dtn://me/app', 'deliver-admin': NODE, 'forward': 'dtn://fwd/app', 'forward-frag': 'dtn://frag/app',
     'delete': 'dtn://del/app', 'no-route': 'dtn://nowhere/app', 'forward-fail': 'dtn://lost/app', 'forward-frag-fail': 'dtn://tiny/app', 'security': 'dtn://me/app', 'security-bcb': 'dtn://me/app', 'duplicate': 'dtn://me/app',
+    'forward-cl-missing': 'dtn://nocl/app', 'forward-cl-raises': 'dtn://badcl/app',
 }
 
 
@@ -124,10 +129,12 @@ def check_combo(combo, bundle, obs):
     sim = Sim(0, 'eager')
     enc = bpv7.encode(bundle)
     node = bh.BpNode(sim, NODE, rx_routes=[(r'dtn://me/.*', 'deliver'), (r'dtn://fwd/.*', 'forward'), (r'dtn://frag/.*', 'forward'),
-                                           (r'dtn://del/.*', 'delete'), (r'dtn://lost/.*', 'forward'), (r'dtn://tiny/.*', 'forward')],
+                                           (r'dtn://del/.*', 'delete'), (r'dtn://lost/.*', 'forward'), (r'dtn://tiny/.*', 'forward'),
+                                           (r'dtn://nocl/.*', 'forward'), (r'dtn://badcl/.*', 'forward')],
                      tx_routes=([dict(pattern=r'dtn://rep/.*', mtu=80, raw={'r': 'rep-small'})] if combo.get('report_mtu') else []) +
                      [dict(pattern=r'dtn://frag/.*', mtu=max(120, len(enc) - 150), raw={'r': 'frag'}),
                                 dict(pattern=r'dtn://tiny/.*', mtu=40, raw={'r': 'tiny'}),
+                                dict(pattern=r'dtn://nocl/.*', cl='nosuch', raw={'r': 'nocl'}),
                                 dict(pattern=r'(?!dtn://lost/).*', raw={'r': 'any'})])
     problems = []
     detail = dict(received=enc.hex()[:400], combo=combo)
@@ -135,8 +142,12 @@ def check_combo(combo, bundle, obs):
         node.recv(enc)
         sim.settle(5000)
         del node.cl.sent[:]
+    if combo['outcome'] == 'forward-cl-raises':
+        node.cl.fail_next = 1
     err = node.recv(enc)
     res = sim.settle(20000)
+    if combo['outcome'] == 'forward-cl-raises' and node.cl.fail_next:
+        problems.append(('harness', 'the simulated convergence-layer failure was not consumed by the forward'))
     if err is not None:
         problems.append(('raised', 'receive callback raised %s: %s' % (type(err).__name__, err)))
     if sim.world.callback_errors:
@@ -208,6 +219,10 @@ def check_combo(combo, bundle, obs):
         for item in probs:
             problems.append(('malformed', 'report bundle not well-formed: %s' % item))
         pri = dec['primary']
+        if not pri['crc_type'] and not any(blk['type'] == 11 for blk in dec['blocks']):
+            # RFC 9171 4.3.1: the primary block carries a CRC unless an integrity block covers it; a report without one has no
+            # valid CRC to show
+            problems.append(('crc', 'the report leaves without any CRC on its primary block (subject primary CRC type %d)' % combo['crc']))
         if pri['dest'] != combo['report_to']:
             problems.append(('dest', 'report addressed to %r, report-to is %r' % (pri['dest'], combo['report_to'])))
         req_bits = bpv7.FLAG_REQ_RECEPTION | bpv7.FLAG_REQ_FORWARDING | bpv7.FLAG_REQ_DELIVERY | bpv7.FLAG_REQ_DELETION
